@@ -39,7 +39,7 @@ struct Top {
 
 extern "C" int harness_main() {
     choose_base(P);
-    choose_extra(P, X_COUNT_EVAL);
+    choose_extra(P, X_COUNT_EVAL, true);
     verif_assume(!P.cyclic);  // cyclic requests are C01_rank's second family
 
     GraphBuilder gb = build_graph<Top>();
